@@ -8,7 +8,7 @@ tools/py2lean_bits.py / tools/py2lean.py): `Gen/TranslArs.lean` (Motorola ARS: `
              consts   parameters translated for ONE value (`endian="big"`, the default and the only value the model covers):
                       the parameter disappears; a call that passes anything else is refused,
              variant  the parameter whose static type distinguishes several entries of ONE Python function
-                      (`encode_len_val` for `data: str` and for `data: None`; a call with an `Optional[str]` dispatches),
+                      (`encode_len_val` for `data: str`, `data: None`, `data: bytes`; a call with an `Optional[str]` dispatches),
              ret / lean_name,
   classes    whose objects are constructed (their `__init__` is in `functions`),
   enums      Enum class → (member values, call graph) of the property's own generated table (`Gen/Ars.lean`),
@@ -67,6 +67,8 @@ UNITS = {
              dict(params={"data": "str"}, consts=_BIG, variant="data", lean_name="AutomaticRegistrationService.encode_len_val_str")),
             (_ARS, "AutomaticRegistrationService.encode_len_val",
              dict(params={"data": "none"}, consts=_BIG, variant="data", lean_name="AutomaticRegistrationService.encode_len_val_none")),
+            (_ARS, "AutomaticRegistrationService.encode_len_val",
+             dict(params={"data": "bytes"}, consts=_BIG, variant="data", lean_name="AutomaticRegistrationService.encode_len_val_bytes")),
             (_ARS, "AutomaticRegistrationService.read_len_val"),
             (_ARS, "AutomaticRegistrationService.get_payload", dict(consts=_BIG)),
             (_ARS, "AutomaticRegistrationService.from_bytes", dict(consts=_BIG, ret=("obj", "AutomaticRegistrationService"))),
